@@ -8,9 +8,10 @@ import DC.Proofs.BufioEval
 non-nil error that wraps or equals that error; it never returns the statements parsed from the bytes read so far
 together with a nil error, as if the input had legitimately ended there."
 
-After the fix commit the lexer records, in `Lexer.err`, the first error that `ReadRune` (lexer.go:47-49) or any `Peek`
-(lexer.go:73-76) returns and that is neither `io.EOF` nor `bufio.ErrBufferFull` (`recordErr`, lexer.go:66), and
-`ParseStatements` returns it wrapped with `%w` when it is non-nil (parser.go:186). What remains to be shown is that an
+After the two fix commits the lexer records, in `Lexer.err`, the first error other than `io.EOF` (`recordErr`,
+lexer.go:66) that `ReadRune` (lexer.go:47-49) returns, or that a `Peek(n)` with `n ≤ reader.Size()` returns
+(lexer.go:73-82; a larger `Peek` always answers `bufio.ErrBufferFull` and is not recorded), and `ParseStatements`
+returns it wrapped with `%w` when it is non-nil (parser.go:186). What remains to be shown is that an
 error returned by the *underlying* reader really arrives at one of those two calls: `bufio.Reader` keeps errors in a
 sticky slot, hands them out later, and clears the slot when it does.
 
@@ -43,12 +44,28 @@ everything the operations return until the error comes out was buffered before (
 theorem no_read_while_error_pending (op : Op) (b : BR) (h : b.err ≠ none) : (step op b).2.rd = b.rd :=
   step_pending_noread op b h
 
+/-- **No error is lost by large peeks**: `Peek(n)` with `n > Size()` (`tryReadDollarTag`'s `Peek(8192)` on the 4096-byte
+buffer) answers `bufio.ErrBufferFull` of its own — that value says nothing about the reader, which is why `peek`
+(lexer.go:78) does not record it — and a reader error found or received meanwhile stays in the slot. -/
+theorem no_error_lost_by_large_peeks (n : Nat) (b : BR) (hn : b.cap < n) :
+    (peek n b).1.2 = some .bufferFull ∧ (b.err ≠ none → (peek n b).2.err = b.err) :=
+  ⟨(large_peek_keeps_error n b hn).1, (large_peek_keeps_error n b hn).2.2⟩
+
+/-- conversely a `Peek(n)` with `n ≤ Size()` never makes up an error: what it returns was handed out of the slot, so
+recording it (`bufio.ErrBufferFull` included) records a reader error -/
+theorem small_peek_error_is_readers (script : Script) (d : List Err) (n : Nat) (b : BR) (h : Inv0 script d b)
+    (hn : n ≤ b.cap) (e : Err) (he : (peek n b).1.2 = some e) : Inv0 script (d ++ [e]) (peek n b).2 := by
+  rcases peek_inv script d n b h with ⟨_, h2 | ⟨_, h3⟩⟩ | ⟨e', h1, h2, _, _⟩
+  · rw [h2] at he; cases he
+  · omega
+  · rw [h2] at he; cases he; exact h1
+
 /-- an operation that runs into a pending error returns it, or leaves it pending: it is never dropped -/
 theorem pending_error_kept_or_returned (script : Script) (d : List Err) (op : Op) (b : BR) (h : Inv0 script d b)
     (e : Err) (he : b.err = some e) :
     (step op b).2.err = some e ∨ (step op b).1.err = some e := by
   have hlog : d ++ [e] = b.log := by have := h.log; simpa [he] using this
-  rcases step_inv script d op b h with ⟨h1, _⟩ | ⟨e', h1, h2, h3⟩
+  rcases step_inv script d op b h with ⟨h1, _⟩ | ⟨e', h1, h2, h3, _⟩
   · left
     have h1l := h1.log
     have hnr : (step op b).2.log = b.log := by
@@ -85,9 +102,9 @@ theorem pending_error_kept_or_returned (script : Script) (d : List Err) (op : Op
     rw [h2, h1l]
 
 /-- **C15 on the repaired code.** For every script and every operation sequence issued under the lexer's rules, if
-the lexer read on until `ReadRune` failed (`eof`), then `Lexer.err` is the first error the underlying reader returned
-that is neither `io.EOF` nor `bufio.ErrBufferFull` (or `io.ErrNoProgress` made by `fill`, if that came first) — `none`
-only if there was no such error. -/
+the lexer read on until `ReadRune` failed (`eof`), then `Lexer.err` is the first error other than `io.EOF` that the
+underlying reader returned — whatever its value, `bufio.ErrBufferFull` included — (or `io.ErrNoProgress` made by
+`fill`, if that came first); it is `none` only if there was no such error. -/
 theorem reader_error_reported (script : Script) (ops : List Op) :
     let c := Client.run ops (Client.new script)
     c.eof = true →
@@ -187,20 +204,31 @@ example :
   rw [Client.run_eqE]
   decide
 
-/-! ### what the theorem does not give, on purpose -/
+/-! ### the second repaired defect, and what the theorem does not give on purpose -/
 
 /-- the reader delivers `SELECT 1` and then fails with the error value `bufio.ErrBufferFull` -/
 def failWithBufferFull : Script := [⟨select1, none⟩, ⟨[], some .bufferFull⟩]
 
-/-- **The current code still loses one error value.** `recordErr` filters `bufio.ErrBufferFull` (meant for `Peek`'s own
-short-read signal) also on the `ReadRune` path; `ReadRune` never makes that value itself, so when it arrives there the
-underlying reader returned it. A reader whose error *is* `bufio.ErrBufferFull` is treated as a clean EOF: by the
-letter of C15 ("an error other than io.EOF") this is a violation. Replay: `/verif/harness/p_c15.go`,
-key `reader-error-lost@reader-returns-bufio.ErrBufferFull`. -/
+/-- **Witness of the defect fixed by /repo commit efe7a9c82** (found by `/verif/harness/p_c15.go`, key
+`reader-error-lost@reader-returns-bufio.ErrBufferFull`: input `SELECT 1`, the reader fails with the value
+`bufio.ErrBufferFull`; `Parse` returned the statement and a nil error). On the intermediate code (`Client.runMid`:
+`recordErr` filtered `bufio.ErrBufferFull`, meant for `Peek`'s own short-read signal, also on the `ReadRune` path, which
+never makes that value itself) a reader whose error *is* `bufio.ErrBufferFull` was treated as a clean EOF. -/
 theorem c15_bufferfull_alias_counterexample :
-    let c := Client.run nineReadRunes (Client.new failWithBufferFull)
+    let c := Client.runMid nineReadRunes (Client.new failWithBufferFull)
     c.eof = true ∧ c.err = none ∧ c.b.log = [.bufferFull] ∧ c.b.rd = [] := by
-  rw [Client.run_eqE]
+  rw [Client.runMid_eqE]
+  decide
+
+/-- the repaired code reports it, and is not confused by `tryReadDollarTag`'s oversized look-ahead: `Peek(8192)`
+answers `ErrBufferFull` (not recorded), the reader's error stays pending and the next `readChar` records it -/
+example :
+    (Client.run nineReadRunes (Client.new failWithBufferFull)).err = some .bufferFull ∧
+    (Client.run [.peek 8192] (Client.new failAfterSelect1)).err = none ∧
+    (Client.run [.peek 8192] (Client.new failAfterSelect1)).b.err = some (.other 1) ∧
+    (Client.run ([.peek 8192] ++ nineReadRunes) (Client.new failAfterSelect1)).err = some (.other 1) ∧
+    (Client.run ([.peek 8192] ++ nineReadRunes) (Client.new failAfterSelect1)).eof = true := by
+  rw [Client.run_eqE, Client.run_eqE, Client.run_eqE]
   decide
 
 def nulWithError : Script := [⟨[0x61, 0x00], some (.other 1)⟩]
